@@ -531,4 +531,49 @@ theorem call_stops_at (cfg : Cfg) (da : Nat → Fetch) (s : St) (m h : Nat)
   · exact scan_stops_at _ _ _ _ _ _ _ _ h hb hn
   · exact hn
 
+/-! ## The carry-over never holds more than one entry -/
+
+theorem popQueue_length_le (max : Nat) (q : List Entry) (size ts : Nat) :
+    (popQueue max q size ts).queue.length ≤ q.length := by
+  induction q generalizing size ts with
+  | nil => simp [popQueue]
+  | cons e q ih =>
+    simp only [popQueue]
+    split
+    · have := ih (popItems max e.items size).2.1 e.ts
+      simp only [List.length_cons]; omega
+    · simp
+
+theorem scanQ_pushed (q : List Entry) (drift : Nat) (da : Nat → Fetch) (max lastDA fuel next size ts : Nat)
+    (h : q ≠ []) : (scanQ q drift da max lastDA fuel next size ts).pushed = none := by
+  unfold scanQ
+  have : ¬ q.isEmpty = true := by simpa using h
+  simp [this]
+
+theorem pushQ_length_le_one (q : List Entry) (o : Option Entry) (hq : q.length ≤ 1)
+    (h : q ≠ [] → o = none) : (pushQ q o).length ≤ 1 := by
+  cases o with
+  | none => simpa [pushQ] using hq
+  | some e =>
+    have : q = [] := by
+      cases q with
+      | nil => rfl
+      | cons a r => simpa using h (by simp)
+    simp [pushQ, this]
+
+/-- a push-back only happens when the pop has emptied the queue: one entry at most, for every
+caller (any echo, any chain id) -/
+theorem gnb_queue_le_one (cfg : Cfg) (da : Nat → Fetch) (s : St) (r : Req) (h : s.queue.length ≤ 1) :
+    (getNextBatch cfg da s r).st.queue.length ≤ 1 := by
+  have hp : (popQueue (effMax r.max) s.queue 0 0).queue.length ≤ 1 :=
+    Nat.le_trans (popQueue_length_le ..) h
+  unfold getNextBatch
+  split
+  · exact h
+  · split
+    · split
+      · exact hp
+      · exact pushQ_length_le_one _ _ hp (fun hne => scanQ_pushed _ _ _ _ _ _ _ _ _ hne)
+    · exact pushQ_length_le_one _ _ hp (fun hne => scanQ_pushed _ _ _ _ _ _ _ _ _ hne)
+
 end Based
